@@ -64,6 +64,29 @@ class ProbeError(Exception):
     """The 'arbitrary Exception' of the fault plans; its message carries a marker."""
 
 
+class ProbeValueError(ValueError):
+    """A private subclass of a builtin class CherryPy catches internally."""
+
+
+# what the outcome 'ex' raises: by default the private ProbeError; the optional plan key 'xcls' (C01) names another
+# class of the builtin hierarchy CherryPy itself catches / uses internally.  Every one is built with the marker
+# message as its only argument (args[0] is the "secret").
+EX_CLASSES = {
+    'ProbeError': ProbeError, 'ProbeValueError': ProbeValueError, 'ValueError': ValueError, 'TypeError': TypeError,
+    'KeyError': KeyError, 'AttributeError': AttributeError, 'LookupError': LookupError, 'IndexError': IndexError,
+    'UnicodeError': UnicodeError, 'OSError': OSError, 'RuntimeError': RuntimeError, 'StopIteration': StopIteration,
+    'AssertionError': AssertionError, 'ZeroDivisionError': ZeroDivisionError, 'NotImplementedError': NotImplementedError,
+    'CherryPyException': cherrypy.CherryPyException,
+}
+
+
+def probe_exc(text):
+    """The exception object for the outcome 'ex' of the running plan."""
+    run = _run[0]
+    cls = EX_CLASSES.get(getattr(run, 'xcls', None) or 'ProbeError') or ProbeError
+    return cls(text)
+
+
 MARK = 'VPMARK'
 PAGE_CHUNK = b'VP-PAGE-CHUNK;'
 CB_PAGE = 'VP-ERRORPAGE-CB'
@@ -283,7 +306,7 @@ def do_raise(out, site):
     if out == 'ok':
         return
     if out == 'ex':
-        raise ProbeError('%s-%s' % (MARK, site))
+        raise probe_exc('%s-%s' % (MARK, site))
     k, n = out[:2], int(out[2:])
     if k == 'he':
         raise cherrypy.HTTPError(n, 'VPMSG-%s' % site)
@@ -383,7 +406,7 @@ def _ep_fail(**kw):
     run = _run[0]
     run.j.append('P%s' % run.cur())
     run.sites.append(('errpage', 'ex'))
-    raise ProbeError('%s-errpage' % MARK)
+    raise probe_exc('%s-errpage' % MARK)
 
 
 def _gen_exc(out):
@@ -410,7 +433,7 @@ def _gen_body(k, exc=None, out='ex'):
         _run[0].sites.append(('gen', out))
     if exc is not None:
         raise exc
-    raise ProbeError('%s-gen' % MARK)
+    raise probe_exc('%s-gen' % MARK)
 
 
 class Root:
@@ -549,6 +572,7 @@ def run_real(plan, app_wrapper=None):
     wsgi_app = app_wrapper(app) if app_wrapper else app
     env = build_environ(plan)
     run = Run()
+    run.xcls = plan.get('xcls')      # optional (C01): class of what the outcome 'ex' raises
     _run[0] = run
     chunks, escaped, it = [], None, None
     try:
